@@ -3,7 +3,8 @@
    about [gen_cfg] and the regenerated capacities / guards; see Properties_C10.v. *)
 From Coq Require Import List NArith Bool.
 From LBZ Require Import Gen.Consts SchedX.XState Gen.SchedXTab SchedX.XSet SchedX.XModel SchedX.XInvDefs
-  SchedX.XCount SchedX.XOracle SchedX.XSeq SchedX.XC10 SchedX.XC11 SchedX.XOwn SchedX.XOwnRefuted SchedX.XC11b.
+  SchedX.XCount SchedX.XOracle SchedX.XSeq SchedX.XC10 SchedX.XC11 SchedX.XOwn SchedX.XOwnRefuted SchedX.XC11b
+  SchedX.XScanOwn SchedX.XLiveDefs SchedX.XTie SchedX.XTieDrop SchedX.XLiveRun SchedX.XLive SchedX.XLiveTerm.
 Import ListNotations.
 Local Open Scope N_scope.
 
@@ -37,12 +38,16 @@ Proof. exact C11x_capacity_gen. Qed.
    - order_q: every head is owned by the master retriever of its block, by an emit-stage job of
      its block or by the block's last buffer in reord_q; heads have distinct bit positions, so
      length order_q <= held work units + length reord_q (SchedX/XOwn.v, XOwnProofs.v).
-   [preach]: every POk label of the run advances the parser's bit position by at least
-   HDR_MIN = 32 bits.  parse() (parse.c) returns OK only after it has consumed the 48-bit block
-   magic and the 32-bit block CRC in the same call, so every run of the program is such a run;
-   the model's parse1 also admits POk labels without progress, and for those the order_q part
-   is false of the model (C11x_order_empty_without_progress_refuted below).  The scan_q and
-   unord_q parts need no such hypothesis (C11x_capacity_scan_unord). *)
+   [preach]: every POk label of the run lies at least HDR_MIN = 32 bits after the base of the block
+   confirmed before it ([x_next]; 0 initially).  A block header is 80 bits (48-bit magic, 32-bit CRC) and
+   parse() (parse.c) returns OK only when it has consumed all of it, so every run of the program is such
+   a run - and every trace replay checks it (checks/schedx_part.py, harness/schedx_driver.ml).  NOTE: the
+   hypothesis is deliberately NOT "the call that returns OK consumed >= 32 bits": when a header straddles
+   input blocks parse() returns MORE in between and the last call may consume only a few bits (observed on
+   traces with 4..16-byte input blocks); an earlier version of this development assumed that and was
+   therefore vacuous on such runs.  The model's parse1 also admits POk labels without any progress, and for
+   those the order_q part is false of the model (C11x_order_empty_without_progress_refuted below).  The
+   scan_q and unord_q parts need no such hypothesis (C11x_capacity_scan_unord). *)
 Theorem C11x_capacity :
   forall n tin tout ultra st, preach gen_cfg (init_state n tin tout ultra) st -> x_failed st = None ->
     let cap f := f (x_total_in st) (x_num_worker st) (x_total_out st) in
@@ -79,9 +84,9 @@ Theorem C11x_order_head_owned :
     (exists o, In o (x_reord_q st) /\ o_status o <> MORE /\ fst (o_base o) = fst (h_base h) /\ snd (h_base h) <= snd (o_base o)).
 Proof. exact order_head_owned_gen. Qed.
 
-(* Why [preach]: with a POk label that consumes no bits (and a retriever that ends where it
-   began) the MODEL reaches a non-failed state in which can_terminate() holds and order_q is not
-   empty.  This is a permissiveness of the model's label constraints (parse1 checks
+(* Why [preach]: with a POk label at the position of the block confirmed before (and a retriever that
+   ends where it began) the MODEL reaches a non-failed state in which can_terminate() holds and order_q is
+   not empty.  This is a permissiveness of the model's label constraints (parse1 checks
    `d_bit parser_bs <= d_bit bs`, not `<`), not a behaviour of the program. *)
 Theorem C11x_order_empty_without_progress_refuted :
   exists st, reach gen_cfg (init_state 2 8 32 false) st /\ x_failed st = None /\ can_terminate st = true /\
@@ -106,17 +111,127 @@ Theorem C11x_order :
     exists l', L = x_written st ++ l'.
 Proof. intros O n tin tout ultra st L R H1 H2. exact (proj1 (C10_speculation_free_gen O n tin tout ultra st L R H1 H2)). Qed.
 
-(* Deadlock freedom.  Safety part: the asserts guarding attach() never fire
-   (C10_no_stale_attach), resources are conserved (C11x_conserve).
-   C11x_progress (every non-final, non-failed reachable state has an enabled event) and
-   termination are NOT proved for the decompressor.  For the source with `pos_eq` in the
-   second disjunct of can_emit() progress is REFUTED: notes/XF8Refuted_before_fix.v
-   (C11x_progress_refuted, finding F8: a rejected candidate at the minimum of emit_q blocks
-   the reserved output slots for ever; reproduced on the binary, repair = pos_le,
-   notes/fix_F8_deadlock.diff).  For the repaired guard the missing proof is the case
-   analysis "out_slots <= EMIT_THRESH or work_units = 0: the job at or before the head of
-   order_q can always proceed" together with the ownership invariant of unord_q/order_q;
-   until then liveness is supported only by the watchdog-timed runs of the direct tests.
-   The ownership invariant is now available: C11x_order_head_owned, and SchedX/XOwnProofs.v
-   (more_buffer_followed: a buffer with status MORE in reord_q is followed by its block's emit
-   job or last buffer). *)
+(* ---- tie-breaking of the priority queues (the binary heap returns SOME minimal element) ------------- *)
+(* [sreach]: runs whose POk labels satisfy [ev_prog] (as in preach) and whose scan labels satisfy
+   [ev_scan_prog]: a scan() call that reports a magic ends strictly after the position it started from
+   (scan() consumes the 48 bits of the magic and 32 more; checked on every replayed trace).
+   Along such runs the keys of scan_q, unord_q, emit_q and reord_q are pairwise distinct, so it does not
+   matter which minimal element a peek()/dequeue() returns: the model's "first minimal element in list
+   order" is THE minimal element.  (For scan_q plain reach suffices: SchedX/XTie.v scan_keys_distinct.) *)
+Theorem C11x_queue_keys_distinct :
+  forall n tin tout ultra st, 0 < n -> sreach gen_cfg (init_state n tin tout ultra) st -> x_failed st = None ->
+    NoDup (map d_pos (x_scan_q st)) /\ NoDup (map u_base (unord_q st)) /\
+    NoDup (map e_base (x_emit_q st)) /\ NoDup (map o_base (x_reord_q st)).
+Proof. exact C11x_queue_keys_distinct_gen. Qed.
+
+(* retr_q is different: its key is the CURRENT position of a job, and two jobs CAN have equal keys - in
+   the model and in the program: e.g. the master retriever of a block and the retriever of a spurious
+   candidate inside that block both run to the end of the same input block and wait there with the same
+   number of buffered bits. *)
+Theorem C11x_retr_keys_can_tie :
+  exists st j1 j2, sreach gen_cfg (init_state 3 8 8 false) st /\ x_failed st = None /\
+    x_retr_q st = [j1; j2] /\ r_base j1 <> r_base j2 /\ rkey j1 = rkey j2.
+Proof. exact retr_keys_tie_witness. Qed.
+
+(* The model is tie-insensitive for retr_q.  do_retrieve(): the model's retr0 takes ANY minimal element
+   (the label names it).  can_retrieve(): tied jobs stand at the same word offset, so the guard evaluates
+   the same whichever of them peek() returns. *)
+Theorem C11x_can_retrieve_tie :
+  forall n tin tout ultra st x, reach gen_cfg (init_state n tin tout ultra) st ->
+    In x (x_retr_q st) -> is_minimal rkey pos_lt x (x_retr_q st) = true ->
+    can_attach st (r_cur x) = can_attach st (r_cur (peek_retr pos_lt st)).
+Proof. exact C11x_can_retrieve_tie_gen. Qed.
+
+(* advance(): "while peek(retr_q) lies below head_offs: dequeue, drop" removes exactly the jobs below
+   head_offs and keeps exactly the others, for EVERY rule [pick] that returns some minimal element -
+   in particular for the binary heap - and hence agrees with the model's loop (same queue left, the same
+   jobs dropped up to order). *)
+Theorem C11x_advance_any_tiebreak :
+  forall n tin tout ultra st (pick : list rjob -> option rjob) hd,
+    reach gen_cfg (init_state n tin tout ultra) st ->
+    (forall q j, pick q = Some j -> In j q /\ forall y, In y q -> pos_lt (rkey y) (rkey j) = false) ->
+    (forall q, q <> [] -> exists j, pick q = Some j) ->
+    snd (adv_retr_g pick (length (x_retr_q st)) hd (x_retr_q st)) = snd (adv_retr (length (x_retr_q st)) hd (x_retr_q st)) /\
+    Permutation.Permutation (fst (adv_retr_g pick (length (x_retr_q st)) hd (x_retr_q st)))
+                            (fst (adv_retr (length (x_retr_q st)) hd (x_retr_q st))).
+Proof. exact C11x_advance_any_tiebreak_gen. Qed.
+
+(* ... and so are the unord blocks that the dropped jobs give back (drop_unord_link() of jobs with
+   different unord blocks commute) *)
+Theorem C11x_advance_unords_any_tiebreak :
+  forall n tin tout ultra st (pick : list rjob -> option rjob) hd,
+    reach gen_cfg (init_state n tin tout ultra) st ->
+    (forall q j, pick q = Some j -> In j q /\ forall y, In y q -> pos_lt (rkey y) (rkey j) = false) ->
+    (forall q, q <> [] -> exists j, pick q = Some j) ->
+    drop_links (fst (adv_retr_g pick (length (x_retr_q st)) hd (x_retr_q st))) (x_unords st) =
+    drop_links (fst (adv_retr (length (x_retr_q st)) hd (x_retr_q st))) (x_unords st).
+Proof. exact C11x_advance_unords_any_tiebreak_gen. Qed.
+
+(* ---- deadlock freedom ------------------------------------------------------------------------------- *)
+(* Every state of an [sreach] run that has not failed and is not final has an enabled event of the system
+   - worker task, reader thread, writer thread - that is not a stutter ([productive]: an input block
+   handed over after source_close() does not count, and the end of input counts only when the reader
+   thread really is able to move: it has an input slot or request_close is set; source_thread_proc()).
+   First part: if no worker is inside an unlocked computation (x_running = []) the enabled event is a
+   FIRST segment - a task that is ready -, an output slot returned by the writer, or the reader.
+   Second part: a worker inside parse()/retrieve()/decode()/emit()/scan() can always complete its second
+   locked segment (SchedX/XLiveRun.v), so some productive event is enabled in every such state.
+   Hypotheses on the configuration: at least one worker and one input slot, and more than EMIT_THRESH
+   output slots (every configuration of set_memory_constraints() except `-n1` with --small, which has
+   2 = EMIT_THRESH output slots: there the first disjunct of can_emit() is never true and the proof would
+   need "no speculation with one worker"; C11x_progress_dec below).
+   The deadlock of the source with `pos_eq` in can_emit(): notes/XF8Refuted_before_fix.v (finding F8). *)
+Theorem C11x_progress :
+  forall n tin tout ultra st, 1 <= n -> 1 <= tin -> EMIT_THRESH < tout ->
+    sreach gen_cfg (init_state n tin tout ultra) st -> x_failed st = None -> final st = false ->
+    (x_running st = [] ->
+     exists e st', step gen_cfg st e = Some st' /\ productive st e = true /\
+       match e with EvParse1 _ _ | EvRetr1 _ _ _ _ | EvRetr2 _ | EvEmit1 _ _ _ _ _ | EvScan1 _ _ _ _ _ => False | _ => True end) /\
+    exists e st', step gen_cfg st e = Some st' /\ productive st e = true.
+Proof. exact C11x_progress_gen. Qed.
+
+(* the configurations of `lbzip2 -d`: all but one worker with --small *)
+Theorem C11x_progress_dec :
+  forall n small ultra st, 1 <= n -> (small = true -> 2 <= n) ->
+    sreach gen_cfg (init_dec n small ultra) st -> x_failed st = None -> final st = false ->
+    exists e st', step gen_cfg st e = Some st' /\ productive st e = true.
+Proof. exact C11x_progress_dec_gen. Qed.
+
+(* the invariants behind it, for use elsewhere: all of inv / own / cnt / lin / ltk / lld / llm / lrs / lrd
+   hold along the run (SchedX/XLive.v livep) *)
+Theorem C11x_live_invariants :
+  forall n tin tout ultra st, 0 < n -> sreach gen_cfg (init_state n tin tout ultra) st -> livep st.
+Proof. exact C11x_live_invariants_gen. Qed.
+
+(* non-vacuity: a run that satisfies the label hypotheses, with a spurious candidate, two retrievers
+   waiting for input - not failed, not final *)
+Example C11x_progress_example :
+  exists st, sreach gen_cfg (init_state 3 8 8 false) st /\ x_failed st = None /\ final st = false /\ x_running st = [].
+Proof. exact C11x_progress_example_gen. Qed.
+
+(* ---- termination ---------------------------------------------------------------------------------------- *)
+(* [treach T K]: runs of an input of at most T words whose labels satisfy, besides ev_prog and ev_scan_prog,
+   [ev_term T K]: EvInput keeps tail_offs <= T; a parser call that returns MORE has consumed at least one
+   bit (parse() reads 16 bits at a time and returns MORE only when it has used up what it had; checked on
+   every replayed trace); emit() of one block returns MORE at most K times.  (The model's labels are unconstrained: without these a parser
+   that returns MORE at the end of the input for ever, or an emit() that returns MORE for ever, is a run.)
+   Every event that is not a stutter strictly decreases the measure - failed flag, input left, blocks left to
+   confirm, scanning left, retrieving left, parser position, emitting left, buffers, scheduling noise - in the
+   well-founded lexicographic order mlt (SchedX/XLiveTerm.v).  With C11x_progress: every maximal run is finite
+   up to stuttering and ends in a final or a failed state. *)
+Theorem C11x_terminates :
+  forall T K n tin tout ultra st e st',
+    0 < n -> treach T K gen_cfg (init_state n tin tout ultra) st ->
+    ev_prog st e -> ev_scan_prog e -> ev_term T K st e -> step gen_cfg st e = Some st' -> productive st e = true ->
+    mlt (measure T K st') (measure T K st).
+Proof. exact C11x_terminates_gen. Qed.
+
+Theorem C11x_measure_well_founded : well_founded mlt.
+Proof. exact mlt_wf. Qed.
+
+(* non-vacuity: a complete run (two input blocks, a block whose retrieval waits for input and whose output
+   takes two buffers, a spurious candidate that is overtaken, a parser call that returns MORE, end of input)
+   that satisfies every label hypothesis and ends in a final state *)
+Example C11x_terminates_example :
+  exists st, treach 6 1 gen_cfg (init_state 3 8 8 false) st /\ x_failed st = None /\ final st = true.
+Proof. exact term_example. Qed.
